@@ -131,9 +131,14 @@ def run_bounded(chk):
     # ---- polygons (q projected into the plane), both orientations, tilted plane
     for pname in ("triangle", "L", "arrow", "quad_irregular"):
         pts2 = np.array([[float(x), float(y)] for x, y in corpus.polygons_2d()[pname]])
+        listings = []
         for orient in (1, -1):
-            p2 = pts2 if orient == 1 else pts2[::-1]
-            for place, R, t in corpus.placements()[:3]:
+            base_l = pts2 if orient == 1 else pts2[::-1]
+            # every cyclic start of the vertex list (the first corner may then be a reflex one)
+            for k in range(len(base_l) if pname in ("L", "arrow") else 1):
+                listings.append((orient, k, np.roll(base_l, -k, axis=0)))
+        for orient, start, p2 in listings:
+            for place, R, t in (corpus.placements()[:3] if start == 0 else corpus.placements()[2:3]):
                 n_cases += 1
                 Rf = np.array([[float(x) for x in row] for row in R])
                 P3 = np.hstack([p2, np.zeros((len(p2), 1))]) @ Rf.T + np.asarray(t, float)
@@ -153,9 +158,9 @@ def run_bounded(chk):
                     exact.append(val * np.exp(-1j * np.dot(qpar, np.asarray(t, float))))
                 exact = np.array(exact)
                 s = 1.0 if float(oracle.polygon_measures_2d(pts2.tolist())[0]) > 0 else -1.0
-                compare(f"polygon:{pname}/{'ccw' if orient == 1 else 'cw'}/{place}", shape, Q, s * exact, 1.0, A,
+                compare(f"polygon:{pname}/{'ccw' if orient == 1 else 'cw'}/start{start}/{place}", shape, Q, s * exact, 1.0, A,
                         {"class": "Polygon", "vertices": P3.tolist(), "normal": nrm.tolist()})
-                compare(f"polygon:{pname}/{'ccw' if orient == 1 else 'cw'}/{place}/single", shape, Q[1:2], s * exact[1:2], 1.0, A,
+                compare(f"polygon:{pname}/{'ccw' if orient == 1 else 'cw'}/start{start}/{place}/single", shape, Q[1:2], s * exact[1:2], 1.0, A,
                         {"class": "Polygon", "vertices": P3.tolist(), "normal": nrm.tolist()})
     # ---- sphere
     for R_, c in ((1.3, (0, 0, 0)), (0.4, (2.0, -1.0, 0.5))):
